@@ -27,6 +27,7 @@ type RunDef struct {
 	Preempt       int
 	Reach         []string // labels that must be reached (vacuity guard)
 	FuelViolation bool
+	NativeRepeat  int    // native replay attempts (violations that depend on Go's randomised map iteration)
 	NativeTwin    string // for scheduler runs: harness function run natively to confirm known findings (expects a Go panic)
 	Note          string
 }
@@ -220,6 +221,7 @@ func cmdCheck(args []string) int {
 	var knownLines []string
 	var spuriousList []string
 	knownWitnessDone := map[string]bool{}
+	fuelReproduced := 0
 	for _, o := range outs {
 		for _, v := range o.exp.Violations {
 			rec := replayRec{Harness: ck.Pkg + "." + o.def.Fn, Pkg: ck.Pkg, Fn: o.def.Fn, Setup: o.def.Setup, Property: id, Label: v.Label, Kind: v.Kind,
@@ -235,6 +237,13 @@ func cmdCheck(args []string) int {
 			path := filepath.Join(replayDir, fmt.Sprintf("%s-%x.json", id, h[:5]))
 			os.WriteFile(path, b, 0o644)
 			status := "engine-only"
+			if v.Kind == "fuel" && fuelReproduced >= 3 && !*noReplay {
+				// the watchdog costs 10 s per replay: after three reproduced non-termination witnesses the
+				// remaining ones of this run are reported without a native replay of their own
+				violLines = append(violLines, fmt.Sprintf("VIOLATION property=%s replay=%s", id, path))
+				fmt.Printf("  violation: %s label=%s inputs=%v [engine-only: watchdog budget, 3 others reproduced natively]\n", o.def.Fn, v.Label, v.Inputs)
+				continue
+			}
 			if !*noReplay && o.def.Sched && o.def.NativeTwin != "" && v.Known != "" {
 				if nativeBin == "" {
 					nativeBin, err = buildNative(ck.Pkg, l)
@@ -265,9 +274,16 @@ func cmdCheck(args []string) int {
 				}
 				nativeRuns++
 				okRep, out := runNative(nativeBin, path, rec)
+				for try := 1; !okRep && try < o.def.NativeRepeat; try++ {
+					nativeRuns++
+					okRep, out = runNative(nativeBin, path, rec)
+				}
 				if okRep {
 					status = "reproduced"
 					reproduced++
+					if v.Kind == "fuel" {
+						fuelReproduced++
+					}
 				} else {
 					status = "NOT-reproduced"
 					spurious++
@@ -514,13 +530,16 @@ func runNative(bin, replayPath string, rec replayRec) (bool, string) {
 		args = append(args, rec.Setup)
 	}
 	args = append(args, rec.Fn)
-	cmd := exec.Command("timeout", append([]string{"-s", "KILL", "20", bin}, args...)...)
+	cmd := exec.Command("timeout", append([]string{"-s", "KILL", "10", bin}, args...)...)
 	cmd.Env = append(os.Environ(), "SYMX_REPLAY="+replayPath)
 	out, err := cmd.CombinedOutput()
 	s := string(out)
 	code := 0
 	if ee, ok := err.(*exec.ExitError); ok {
 		code = ee.ExitCode()
+	}
+	if os.Getenv("VERIF_DEBUG") != "" {
+		fmt.Fprintf(os.Stderr, "native replay %s: exit=%d err=%v out=%q\n", rec.Fn, code, err, firstLine(s))
 	}
 	switch rec.Kind {
 	case "assert":
@@ -531,7 +550,7 @@ func runNative(bin, replayPath string, rec replayRec) (bool, string) {
 	case "panic":
 		return code == 2 && (strings.Contains(s, "panic:") || strings.Contains(s, "fatal error:")), s
 	case "fuel":
-		return code == 137 || code == 124, s // killed by the watchdog: did not terminate
+		return code == 137 || code == 124 || code == -1, s // killed by the watchdog (timeout -s KILL may take the wrapper down too): did not terminate
 	case "twin":
 		// directed native twin of a schedule-dependent finding: it demonstrates the defect by a Go
 		// panic (exit 2) or by a failing assertion (exit 3)
